@@ -133,6 +133,18 @@ Section Scalar.
     rewrite E2, E. reflexivity.
   Qed.
 
+  Lemma thomas_shape L rows :
+    0 < L -> rows_width L rows ->
+    Forall (fun v => length v = L) (thomas N rows) /\ length (thomas N rows) = length rows.
+  Proof.
+    intros HL Hw. unfold thomas.
+    destruct (forward_lane 0 L rows HL Hw) as [E W].
+    destruct (back_lane 0 L (forward N rows) HL W) as (_ & A & B).
+    split; [exact A|]. rewrite B.
+    destruct rows as [|r t]; [reflexivity|]. cbn [forward length]. f_equal.
+    clear. generalize (r_mid r) (r_up r) (r_rhs r). induction t as [|a t IH]; intros; cbn; auto.
+  Qed.
+
 End Scalar.
 
 Arguments mkS {T} s_low s_mid s_up s_rhs.
